@@ -7,7 +7,7 @@ use libfuzzer_sys::{fuzz_crossover, fuzz_mutator, fuzz_target};
 fuzz_target!(|data: &[u8]| {
     dexh::fuzzglue::init();
     if let Some(case) = dexh::fuzzglue::decode_pool_case(data) {
-        if let Err(m) = dexh::fuzzglue::run_pool_backing(&case) {
+        if let Err(m) = dexh::fuzzglue::run_pool_history(&case) {
             panic!("VIOLATION-IN-TARGET: {m}");
         }
     }
